@@ -23,6 +23,7 @@ LEVEL_TEXT = (
     "Exhaustive for the small graphs, sampled beyond."
     ' Further parts: the program may grow between steps (add_command of commands referencing earlier ones, by name or as objects); references through result parameters with a declared type; models 40-3000 commands deep (chains, ladders, list and nested-list links, any file order, a result near the source read before run(), an extension between two runs).'
 )
+LEVEL_TEXT += ' Histories also hold: a consumer added and read before the command it refers to exists (refused), then completion; the argument of a command that has not run given a new value.'
 LEVEL_NOTE = "Term equality is observed through a test library's execute(); execution counts are additionally observed on the built-in commands of generated EEMS models through execute() wrappers."
 RULE = (
     "Cases: {nodes: [refs via A/B/C direct, L list, N nested list], order, build: source|api, steps: run | read i | "
